@@ -399,13 +399,23 @@ class Unbalanced(Exception):
 def _step(e, inloop, held, kind, params):
     """('cont', held) | ('done', ok, reason)"""
     k = e[0]
+
+    def strip(h):
+        return [x for x in h if not x.startswith('!')]
     if k in ('ref', 'owned'):
-        return ('cont', [e[1]] + held)
-    if k == 'deref':
+        return ('cont', [e[1]] + [x for x in held if x != '!' + e[1]])
+    if k in ('deref', 'derefl'):
         h = _remove1(e[1], held)
         if h is None:
             return ('done', False, f'{e[1]} released without a reference being held')
+        if k == 'deref' and e[1] not in h:
+            # the function's own reference is gone and the node may be reclaimed
+            h = ['!' + e[1]] + h
         return ('cont', h)
+    if k in ('wrap', 'ret_node', 'init') and ('!' + e[-1]) in held:
+        return ('done', False, f'{e[-1]} used ({k}) after its reference was released')
+    if k == 'store' and ('!' + e[2]) in held:
+        return ('done', False, f'{e[2]} stored after its reference was released')
     if k == 'store':
         h = _remove1(e[2], held)
         if h is None:
@@ -437,9 +447,9 @@ def _step(e, inloop, held, kind, params):
                 if not res[1]:
                     return res
                 continue
-            extra = list(h)
+            extra = strip(h)
             missing = []
-            for x in held:
+            for x in strip(held):
                 if x in extra:
                     extra.remove(x)
                 else:
@@ -468,11 +478,11 @@ def _step(e, inloop, held, kind, params):
             return ('done', False, f'{c} drained but not held')
         return ('cont', h)
     if k in ('ret_wrapped', 'ret_other'):
-        return ('done', not held, f'still held at return: {held}')
+        return ('done', not strip(held), f'still held at return: {strip(held)}')
     if k == 'ret_node':
         if kind != 'KCdef':
             return ('done', False, f'bare node {e[1]} returned to Python')
-        return ('done', not held, f'still held at return: {held}')
+        return ('done', not strip(held), f'still held at return: {strip(held)}')
     if k == 'raise':
         return ('done', True, '')
     return ('cont', held)
@@ -483,13 +493,13 @@ def _refs(p):
 
 
 def _derefs(p):
-    return [e[1] for e in p if e[0] == 'deref']
+    return [e[1] for e in p if e[0] in ('deref', 'derefl')]
 
 
 def balanced(m, p):
     """(ok, reason)"""
     if m['api'] is not None:
-        simple = all(e[0] in ('ref', 'deref', 'ret_other', 'raise') for e in p)
+        simple = all(e[0] in ('ref', 'deref', 'derefl', 'ret_other', 'raise') for e in p)
         if simple and p and p[-1][0] == 'raise':
             return True, ''
         evs = _refs(p) + _derefs(p)
@@ -506,6 +516,7 @@ def balanced(m, p):
         if r[0] == 'done':
             return r[1], ('' if r[1] else r[2])
         held = r[1]
+    held = [x for x in held if not x.startswith('!')]
     return (not held), ('' if not held else f'still held at the end: {held}')
 
 
